@@ -6,6 +6,7 @@ package main
 // them against the real declarations).
 
 import (
+	"sync"
 	"fmt"
 	"regexp"
 	"go/ast"
@@ -41,6 +42,8 @@ type Program struct {
 	SpecFns  map[string]*SpecFn // spec function name -> info
 	PredByFn map[*types.Func]*Pred
 	SynthSrc map[string]string // pkg short -> synthetic source (for reports)
+	ifaceOnce sync.Once
+	ifaceOf   map[string][]string // implementation key -> interface-method contract keys
 	ModSets  map[*types.Func]map[string]bool
 	AddrTaken map[*types.Func]bool
 	fvSet     map[string]bool
